@@ -69,6 +69,19 @@ def replay_cases(recs):
                     t.calls += 1
                     if not maxdiff(Q[-1], want) <= 1e-13 * (k + 1):
                         t.fail("C08|AngularRate(gyr).Q|not-q0*r^k", {"q0": q0, "u": u, "k": k, "dt": dt, "method": spelled, "got": Q[-1], "want": want})
+                # the other representations the batch offers: row i is the matrix / the angles of attitude i -- row 0 (the initial attitude) included
+                from ahrs.common.quaternion import Quaternion as _Q
+                for rep, att, conv in (("rotmat", "R", lambda qq: np.asarray(_Q(qq).to_DCM(), dtype=float)), ("angles", "W", lambda qq: np.asarray(_Q(qq).to_angles(), dtype=float))):
+                    t.calls += 1
+                    o_ = core.outcome(lambda: np.asarray(getattr(F.AngularRate(gyr=np.tile(w, (k + 1, 1)), q0=g_unit(q0), Dt=dt, method="closed", representation=rep), att), dtype=float))
+                    if o_[0] != "ok":
+                        t.fail("C08|AngularRate(gyr, representation=%s)|raises-%s" % (rep, o_[1]), {"q0": q0, "u": u, "k": k, "dt": dt, "err": o_[2]})
+                        continue
+                    Qq = np.asarray(F.AngularRate(gyr=np.tile(w, (k + 1, 1)), q0=g_unit(q0), Dt=dt, method="closed").Q, dtype=float)
+                    for i_ in (0, k):
+                        if not (o_[1].shape[0] == k + 1 and maxdiff(o_[1][i_], conv(Qq[i_])) <= 1e-12):
+                            t.fail("C08|AngularRate(gyr, representation=%s)|row-is-not-the-attitude-of-that-sample|%s" % (rep, "first-row" if i_ == 0 else "last-row"),
+                                   {"q0": q0, "u": u, "k": k, "dt": dt, "row": i_, "got": o_[1][i_], "want": conv(Qq[i_])})
                 one = np.asarray(ar.update(g_unit(q0), w, method="closed", dt=k * dt), dtype=float)
                 t.calls += 1
                 if not maxdiff(one, want) <= 1e-13 * (k + 1):
